@@ -23,7 +23,7 @@ var addrShapes = []string{
 
 var locPool = []string{"", "m1", "m1/sub", "m2"}
 var versionPool = []string{"0.9.0", "1.0.0", "1.0.1", "1.2.0", "1.2.3", "2.0.0", "2.1.0-beta.1", "3.0.0-rc.1", "1.10.0", "1.4.0+build.7"}
-var constrPool = []string{"", "", ">= 1.0.0", "~> 1.0", "~> 1.2.0", "< 2.0.0", ">= 1.0.0, < 2.0.0", "1.2.3", "1.0.0", "2.1.0-beta.1", ">= 0.0.1", "> 1.0.0", "!= 1.2.3", "<= 1.2.0"}
+var constrPool = []string{"", "", ">= 1.0.0", "~> 1.0", "~> 1.2.0", "< 2.0.0", ">= 1.0.0, < 2.0.0", "1.2.3", "1.0.0", "2.1.0-beta.1", ">= 0.0.1", "> 1.0.0", "!= 1.2.3", "<= 1.2.0", "< 0.5.0"}
 
 type gknobs struct {
 	maxPkgs, maxRegs, maxAdds int
